@@ -114,6 +114,62 @@ M('c10-escaped-skips-first-escape', 'C10', 'R5', U, "            for token in to
 M('c10-escaped-digits-with-g', 'C10', 'R5', U,
   "hex_octet[0] in _HEX_DIGITS and hex_octet[1] in _HEX_DIGITS", "hex_octet[0] in _HEX_DIGITS + 'gG' and hex_octet[1] in _HEX_DIGITS")
 
+# R5 look-alike: a membership test of a (possibly empty) slice used as "this character is a hex digit"
+TOKEN_LOOP = """            tokens = uri.split('%')
+            for token in tokens[1:]:
+                hex_octet = token[:2]
+
+                if not len(hex_octet) == 2:
+                    break
+
+                if not (hex_octet[0] in _HEX_DIGITS and hex_octet[1] in _HEX_DIGITS):
+                    break
+"""
+# seeded change s2-c10-2: in-place find() scan, one-character slices ('' in <str> is True at the end of the input)
+M('c10-escaped-find-scan-empty-slices', 'C10', 'R5', U, TOKEN_LOOP,
+  """            pos = uri.find('%')
+            while pos != -1:
+                if not (
+                    uri[pos + 1 : pos + 2] in _HEX_DIGITS
+                    and uri[pos + 2 : pos + 3] in _HEX_DIGITS
+                ):
+                    break
+
+                pos = uri.find('%', pos + 3)
+""")
+# same slip with the token loop kept: the length test is "folded into" slices that cannot raise IndexError
+M('c10-escaped-token-slices-no-length-test', 'C10', 'R5', U, TOKEN_LOOP,
+  """            tokens = uri.split('%')
+            for token in tokens[1:]:
+                if not (token[:1] in _HEX_DIGITS and token[1:2] in _HEX_DIGITS):
+                    break
+""")
+# a length test that covers only the first of the two sliced characters
+M('c10-escaped-second-slice-unguarded', 'C10', 'R5', U, TOKEN_LOOP,
+  """            tokens = uri.split('%')
+            for token in tokens[1:]:
+                if not token:
+                    break
+
+                if not (token[0:1] in _HEX_DIGITS and token[1:2] in _HEX_DIGITS):
+                    break
+""")
+# index scan with a bound that is one short: '%X' at the very end passes
+M('c10-escaped-index-scan-bound-off-by-one', 'C10', 'R5', U, TOKEN_LOOP,
+  """            pos = uri.find('%')
+            while pos != -1:
+                if len(uri) < pos + 2:
+                    break
+
+                if not (
+                    uri[pos + 1 : pos + 2] in _HEX_DIGITS
+                    and uri[pos + 2 : pos + 3] in _HEX_DIGITS
+                ):
+                    break
+
+                pos = uri.find('%', pos + 3)
+""")
+
 # ----------------------------------------------------------------------- R6
 M('c10-parse-host-str-port', 'C10', 'R6', U, "    return (name, int(port))\n", "    return (name, port)\n", also=('C09',))
 M('c10-parse-host-keeps-brackets', 'C10', 'R6', U, "return (host[1:-1], default_port)", "return (host, default_port)")
